@@ -363,7 +363,12 @@ func (e *Explorer) handleViolation(c *Ctx, dev int) {
 	obs := c.observation()
 	rec := pointStrings(c)
 	var traced *Ctx
-	for i := 0; i < 5; i++ {
+	reruns := 5
+	if c.noRerun {
+		reruns = 0
+		traced = c
+	}
+	for i := 0; i < reruns; i++ {
 		r, err := e.execute(append([]int(nil), c.Choices...), true, rec)
 		if err != nil {
 			st.Unreproducible = append(st.Unreproducible, fmt.Sprintf("%s %v: %v", e.scen.Name, c.Choices, err))
@@ -395,7 +400,7 @@ func (e *Explorer) handleViolation(c *Ctx, dev int) {
 		st.Violations[sig] = &Violation{
 			Property: e.Property, Scenario: e.scen.Name, Params: e.scen.Params,
 			Choices: append([]int(nil), c.Choices...), Points: rec, Trace: traced.Trace,
-			Signature: sig, Message: sigs[sig], Deviations: dev, Reruns: 5, Count: n,
+			Signature: sig, Message: sigs[sig], Deviations: dev, Reruns: reruns, Count: n,
 		}
 	}
 }
